@@ -326,6 +326,8 @@ def lifecycleLabels (nSenders nKillers : Nat) : List Label :=
   ((none :: (List.range nKillers).map some).flatMap fun who =>
     [.shCancel who, .shHandlers who, .shReader who, .shWaitRead who, .shWaitReadTimeout who, .shRenderer who, .shRestore who]) ++
   [.runReturn] ++
+  [.exRelCancel, .exRelWaitRead, .exRelWaitTimeout, .exRelRenderer, .exRelRestore, .exResReader, .exResRenderer,
+   .exResSpawn] ++
   [.suSigHandler, .suNewRenderer, .suStartRenderer, .suSpawnInit, .suOpenReader, .suSpawnHandlers]
 
 /-- run lifecycle steps (first enabled, repeatedly) plus the returns of user callbacks the
@@ -343,10 +345,11 @@ def settle (fuel : Nat) (release : List Label) (s : St) : St :=
 def applyAll (s : St) (ls : List Label) : St :=
   ls.foldl (fun s l => (step s l).getD s) s
 
-/-- the user callbacks a scenario releases: those of the loop and the listen goroutine, and those of
-Run's start-up (the writer of the mode sequences, Init, the first View) -/
+/-- the user callbacks a scenario releases: those of the loop and the listen goroutine, those of
+Run's start-up (the writer of the mode sequences, Init, the first View), the command of an Exec -/
 def releaseLabels : List Label :=
-  [.callbackReturns, .viewReturns, .writerReturns, .startWriterReturns, .initReturns, .firstViewReturns]
+  [.callbackReturns, .viewReturns, .writerReturns, .startWriterReturns, .initReturns, .firstViewReturns,
+   .execCmdReturns]
 
 def run (line : String) : String :=
   match words line with
@@ -354,7 +357,11 @@ def run (line : String) : String :=
     let nBlocked := if pending == "senders1" then 1 else if pending == "senders50" then 50 else 0
     -- sender 0: the strike message; sender 1: the cause message (quit/interrupt); 2..: pending senders
     let causeKind : SendKind := if cause == "interrupt" then .interrupt else .quit
-    let sendersK : List SendKind := [.user, causeKind, .user] ++ List.replicate nBlocked .user
+    -- `in-exec`: one more sender, LAST, whose message is the execMsg
+    let inExec : Bool := strike == "in-exec"
+    let execIdx : Nat := 3 + nBlocked
+    let sendersK : List SendKind :=
+      [.user, causeKind, .user] ++ List.replicate nBlocked .user ++ (if inExec then [.exec] else [])
     let hasInput : Bool := input != "nil" || cause == "readerr"
     let cfg : Config := { cancelable := input == "pipe", withSignalHandler := false, ignoreSignals := false, withResize := false, withInitCmd := false, withInput := hasInput, senders := sendersK, waiters := 0 }
     -- a strike during Run's start-up: how many steps of the fault-free schedule lead to that stage
@@ -364,7 +371,7 @@ def run (line : String) : String :=
       | "in-first-view" => some 6     -- inside the first View
       | _ => none
     -- causes that need the running loop (a message to process, a read loop): during the start-up
-    -- they can only strike once the loop has begun
+    -- (during an Exec) they can only strike once the loop has begun (is back at its select)
     let needsLoop : Bool := cause == "readerr" || cause == "panic-update" || cause == "panic-view"
     -- reach the strike point
     let toCallback : List Label := [.sendCall 0, .elRecvSender 0]
@@ -375,6 +382,12 @@ def run (line : String) : String :=
       | none =>
         let s0 := init cfg
         match strike with
+        | "in-exec" =>
+          -- the fault-free release schedule up to the command (applyAll skips what is not enabled: the
+          -- wait ends by the read loop's exit when the input can be cancelled, by the timeout otherwise)
+          let sx := applyAll s0 [.sendCall execIdx, .elRecvSender execIdx, .exRelCancel, .readerCanceled,
+                                 .exRelWaitRead, .exRelWaitTimeout, .exRelRenderer, .exRelRestore]
+          if needsLoop then settle 2000 releaseLabels sx else sx
         | "in-update" | "in-filter" => applyAll s0 toCallback
         | "in-view" => applyAll s0 (toCallback ++ [.callbackReturns, .elCmdHandOver])
         | "in-writer" => applyAll s0 [.tick]
